@@ -139,6 +139,24 @@ var deviations = []deviation{
 	// a second identity message, naming another key, in the middle of an established link
 	{"second-identity-other-key", func(in *input, c *certSpec) { in.Reident = kE + 1; in.Msgs = 3 }, "tls"},
 	{"second-identity-held-key", func(in *input, c *certSpec) { in.Reident = kB + 1; in.Msgs = 3 }, "tls"},
+	// TLS session resumption (C08-N1): after one honest handshake with its own key the
+	// peer reconnects offering the session ticket; what it would present in a full
+	// handshake varies (nothing at all / garbled proof / honest), as does the identity
+	{"resume-same-honest-fallback", func(in *input, c *certSpec) { in.Resume = "same" }, "accept-tls"},
+	{"resume-same-no-certificate", func(in *input, c *certSpec) { in.Resume = "same"; in.Chain = nil }, "accept-tls"},
+	{"resume-same-garbled-proof", func(in *input, c *certSpec) { in.Resume = "same"; c.Sig.Kind = "garbage" }, "accept-tls"},
+	{"resume-same-identity-other-key", func(in *input, c *certSpec) {
+		in.Resume = "same"
+		in.Ident = identSpec{Kind: "other", Key: kE}
+	}, "accept-tls"},
+	{"resume-same-other-certificate", func(in *input, c *certSpec) {
+		in.Resume = "same"
+		*c = *honestSpec(kB, 1)
+		in.HSKey = 1
+	}, "accept-tls"},
+	{"resume-restart-honest-fallback", func(in *input, c *certSpec) { in.Resume = "restart" }, "accept-tls"},
+	{"resume-restart-no-certificate", func(in *input, c *certSpec) { in.Resume = "restart"; in.Chain = nil }, "accept-tls"},
+	{"resume-restart-garbled-proof", func(in *input, c *certSpec) { in.Resume = "restart"; c.Sig.Kind = "garbage" }, "accept-tls"},
 	// identity message after the handshake
 	{"identity-other-key", func(in *input, c *certSpec) { in.Ident = identSpec{Kind: "other", Key: kB} }, "accept-tls"},
 	{"identity-honest-key", func(in *input, c *certSpec) { in.Ident = identSpec{Kind: "other", Key: kE} }, "accept-tls"},
@@ -244,6 +262,8 @@ func corpus() []interface{} {
 		}
 		// F29 witness (Tls.crash_refuted)
 		ins = append(ins, deviate("tls", s, "accept", find("identity-no-key")))
+		// C08-N1 witness (TlsProofs.resumption_refuted): ticket alone, no certificate
+		ins = append(ins, deviate("tls", s, "accept", find("resume-same-no-certificate")))
 		// honest handshakes
 		for _, r := range roles {
 			ins = append(ins, base("unit", s, r, kA))
@@ -445,6 +465,9 @@ func generate(rng *rand.Rand, tier string) []interface{} {
 		in.TLSVer = []string{"1.2", "1.3"}[rng.Intn(2)]
 		in.Msgs = 1 + rng.Intn(3)
 		in.UnauthOk = level == "tls" && rng.Intn(2) == 0
+		if level == "tls" && r == "accept" && rng.Intn(8) == 0 {
+			in.Resume = []string{"same", "restart"}[rng.Intn(2)]
+		}
 		mutate(rng, &in, 1+rng.Intn(4))
 		if r == "accept" {
 			in.Expected = 0
